@@ -679,6 +679,47 @@ func (x *exec) checkSyncView() bool {
 				return false
 			}
 		}
+		// the window's query: the messages of the given members for the given root, in member order;
+		// members without a message (most of any committee, most of the time) are simply absent
+		{
+			maxV, minV := uint64(0), ^uint64(0)
+			for val := range pt.m {
+				if uint64(val) > maxV {
+					maxV = uint64(val)
+				}
+				if uint64(val) < minV {
+					minV = uint64(val)
+				}
+			}
+			var rt common.Root
+			if m := pt.m[common.ValidatorIndex(minV)]; m != nil {
+				rt = m.BeaconBlockRoot
+			}
+			members := make([]common.ValidatorIndex, 0, maxV+2)
+			for vi := uint64(0); vi <= maxV+1 && vi < 4096; vi++ {
+				members = append(members, common.ValidatorIndex(vi))
+			}
+			var got []*altair.SyncCommitteeMessage
+			if p := guard(func() { got = pt.m.Select(rt, members) }); p != nil {
+				x.panicked(p)
+				return false
+			}
+			x.res.Stat("sync_selects", 1)
+			var want []*altair.SyncCommitteeMessage
+			for _, vi := range members {
+				if m := pt.m[vi]; m != nil && m.BeaconBlockRoot == rt {
+					want = append(want, m)
+				}
+			}
+			same := len(got) == len(want)
+			for i := 0; same && i < len(got); i++ {
+				same = got[i] == want[i]
+			}
+			if !same {
+				x.viol("sync/select", fmt.Sprintf("window slot %d: Select(root %x.., %d members) returns %d messages, %d stored messages of those members vote for that root", pt.slot, rt[:4], len(members), len(got), len(want)))
+				return false
+			}
+		}
 		// contributions: multiset per (root, subnet)
 		count := 0
 		for _, subs := range pt.c {
